@@ -42,6 +42,8 @@ type caseInfo struct {
 	Result  *designgen.Val    `json:"result,omitempty"`
 	View    string            `json:"view,omitempty"`
 	Expect  string            `json:"expect,omitempty"`
+	// a finding that needs two exchanges in sequence: the earlier one (Design nil = same design)
+	Earlier *caseInfo `json:"earlier_exchange,omitempty"`
 }
 
 type exchange struct {
@@ -109,6 +111,12 @@ func main() {
 		if bu == nil {
 			panic(fmt.Sprintf("replay design rejected: %v %s", oc.Err, oc.Panic))
 		}
+		if e := rp.Input.Earlier; e != nil && e.Design != nil {
+			retypeArrayDefaults(e.Design)
+			if bu, oc := b.Add(e.Design, extract); bu == nil {
+				panic(fmt.Sprintf("replay design (earlier exchange) rejected: %v %s", oc.Err, oc.Panic))
+			}
+		}
 	}
 	// design 1: the hand-written covering design (catch-alls, verb families, aliases as parameters, Any, extremes)
 	var cov *tierb.Built
@@ -155,6 +163,9 @@ func main() {
 		widenArrayDefaults(wr, d)
 		widenPatterns(wr, d)
 		widenInlineBodies(wr, d)
+		widenMultipart(wr, d)
+		widenTextResponses(wr, d)
+		widenCookieOnly(wr, d)
 		widenViews(wr, d)
 		widenDefaultedRespHeaders(wr, d)
 		retypeArrayDefaults(d)
@@ -213,10 +224,35 @@ func main() {
 		if bu.Dropped {
 			panic("replay design does not build: " + bu.BuildErr + bu.GenErr)
 		}
+		if e := rp.Input.Earlier; e != nil {
+			// a sequence: the earlier exchange first, in the same process
+			ebu := bu
+			if e.Design != nil {
+				ebu = b.Items[1]
+				if ebu.Dropped {
+					panic("replay design (earlier exchange) does not build: " + ebu.BuildErr + ebu.GenErr)
+				}
+			}
+			es, em := findMethod(ebu.Design, e.Service, e.Method)
+			if em == nil {
+				panic("replay: no such method (earlier exchange)")
+			}
+			nextView = e.View
+			add(ebu, es, em, e.Stream, e.Payload, e.Result, e.Expect)
+		}
 		s, m := findMethod(bu.Design, rp.Input.Service, rp.Input.Method)
 		if m == nil {
 			panic("replay: no such method")
 		}
+		if rp.Input.Earlier != nil {
+			// which pooled / shared object a later exchange picks up depends on scheduling:
+			// the later exchange is repeated, every repetition re-reads the earlier values
+			for i := 0; i < 15; i++ {
+				nextView = rp.Input.View
+				add(bu, s, m, rp.Input.Stream, rp.Input.Payload, rp.Input.Result, rp.Input.Expect)
+			}
+		}
+		nextView = rp.Input.View
 		add(bu, s, m, rp.Input.Stream, rp.Input.Payload, rp.Input.Result, rp.Input.Expect)
 	} else {
 		if wit.Dropped {
@@ -337,9 +373,15 @@ func main() {
 	for i, x := range xs {
 		steps[i] = x.st
 	}
+	if err := writeMultipartFields(b); err != nil {
+		panic(err)
+	}
 	obs, err := b.Run(steps)
 	if err != nil {
 		panic(err)
+	}
+	if bs, e := os.ReadFile(filepath.Join(b.Dir, "steps.jsonl")); e == nil {
+		_ = os.WriteFile(filepath.Join(b.Dir, "steps_first.jsonl"), bs, 0o644) // kept for debugging (the alt-route run rewrites steps.jsonl)
 	}
 	distinct := vh.Distinct{}
 	mc := newModelCases(*prop)
@@ -358,6 +400,22 @@ func main() {
 		}
 		res.Evaluations++
 		sig, what, extra := evaluate(*prop, x, ob)
+		if sig == "" {
+			// a value handed over earlier must not change while later exchanges are processed
+			if id, w := recheckEarlier(ob, obs); id >= 0 {
+				sig, what = "earlier-value-changed-by-later-exchange", w
+				extra["earlier_step"] = id
+				for _, e := range xs {
+					if e.st.ID == id {
+						ec := e.ci
+						if e.bu == x.bu {
+							ec.Design = nil
+						}
+						extra["earlier_exchange"] = ec
+					}
+				}
+			}
+		}
 		if ob.Invoked == 1 {
 			kb, _ := json.Marshal([]any{x.bu.Key, ci.Payload, ci.Result, ci.Method})
 			distinct.Add(string(kb))
@@ -370,6 +428,9 @@ func main() {
 		}
 		in := map[string]any{"prop": ci.Prop, "stream": ci.Stream, "design": ci.Design, "service": ci.Service, "method": ci.Method,
 			"payload": ci.Payload, "result": ci.Result, "expect": ci.Expect, "wire_request": ob.Req, "wire_response": ob.Resp}
+		if ci.View != "" {
+			in["view"] = ci.View
+		}
 		for k, v := range extra {
 			in[k] = v
 		}
